@@ -479,3 +479,224 @@ def mask_rule(ctx, res):
                f"in_float_range reads descriptor slots {sorted(idxs)}; "
                f"BaseRange writes low/high/mask to {slots}")
     res.floor(2)
+
+
+# ---------------------------------------------------------------------------
+# C01.array-shape-table: the per-dimension test of AbstractArray.validate
+# touches the dimension only through comparisons with the declared entry
+# (None | int | (low, high-or-None)): a complete decision table over
+# {entry kind} x {dim ? low} x {dim ? high} x {high is None}.
+
+TN = "traits/trait_numeric.py"
+
+
+@rule("C01.array-shape-table", ["C01"],
+      "AbstractArray.validate accepts a dimension iff the declared shape "
+      "entry allows it: None - any; n - equal; (low, high) - low <= dim and "
+      "(high is None or dim <= high); complete decision table")
+def array_shape_table(ctx, res):
+    import copy
+    repo = get_pyrepo(ctx)
+    mod = repo.module(TN)
+    fn = repo.func(TN, "AbstractArray.validate")
+    # the per-dimension loop: `for i, dim in enumerate(value_shape)` with an
+    # else clause returning the value
+    loops = [s for s in ast.walk(fn) if isinstance(s, ast.For) and s.orelse
+             and any(isinstance(r, ast.Return) for r in s.orelse)
+             and "enumerate" in norm(s.iter)]
+    if len(loops) != 1 or not isinstance(loops[0].target, ast.Tuple):
+        raise AnalysisError("AbstractArray.validate: per-dimension loop")
+    loop = loops[0]
+    idx, dimv = [norm(t) for t in loop.target.elts]
+    itemv = None
+    for a in loop.body:
+        if isinstance(a, ast.Assign) and isinstance(a.value, ast.Subscript) \
+                and norm(a.value.slice) == idx \
+                and isinstance(a.targets[0], ast.Name):
+            itemv = a.targets[0].id
+    if itemv is None:
+        raise AnalysisError("AbstractArray.validate: shape entry local")
+
+    class Brk(ast.NodeTransformer):
+        def visit_Break(self, node):
+            return ast.copy_location(ast.Return(ast.Constant("REJECT")), node)
+
+        def visit_Continue(self, node):
+            return ast.copy_location(ast.Return(ast.Constant("ACCEPT")), node)
+
+        def visit_For(self, node):
+            return node
+
+        def visit_While(self, node):
+            return node
+    body = [Brk().visit(copy.deepcopy(s)) for s in loop.body]
+    body.append(ast.Return(ast.Constant("ACCEPT")))
+    w = ast.FunctionDef(name="dim", args=fn.args, body=body,
+                        decorator_list=[], lineno=loop.lineno, col_offset=0)
+    ast.fix_missing_locations(w)
+    g = build_cfg(w, "AbstractArray.validate.dim")
+    env0 = {}
+    for a in body:
+        if isinstance(a, ast.Assign) and isinstance(a.targets[0], ast.Name) \
+                and a.targets[0].id != itemv:
+            env0[a.targets[0].id] = a.value
+
+    class Raises(Exception):
+        pass
+
+    def operand(e, env):
+        """DIM | ITEM | LOW | HIGH | NONE | ('const', v)"""
+        if isinstance(e, ast.Name) and e.id in env:
+            return operand(env[e.id], env)
+        t = norm(e)
+        if t == dimv:
+            return "DIM"
+        if t == itemv:
+            return "ITEM"
+        if isinstance(e, ast.Subscript) and norm(e.value) == itemv:
+            k = norm(e.slice)
+            if k in ("0", "-2"):
+                return "LOW"
+            if k in ("1", "-1"):
+                return "HIGH"
+        if t == "None":
+            return "NONE"
+        return None
+
+    def ev(e, val, env):
+        if isinstance(e, ast.Name) and e.id in env:
+            return ev(env[e.id], val, env)
+        if isinstance(e, ast.UnaryOp) and isinstance(e.op, ast.Not):
+            return not ev(e.operand, val, env)
+        if isinstance(e, ast.BoolOp):
+            if isinstance(e.op, ast.And):
+                return all(ev(x, val, env) for x in e.values)
+            return any(ev(x, val, env) for x in e.values)
+        if isinstance(e, ast.Call) and norm(e.func) == "isinstance" \
+                and norm(e.args[0]) == itemv:
+            t = norm(e.args[1])
+            if t == "int":
+                return val["kind"] == "int"
+            if t in ("tuple", "(tuple, list)", "(list, tuple)", "SequenceTypes"):
+                return val["kind"] == "pair"
+        if isinstance(e, ast.Compare) and len(e.ops) == 1:
+            op, l, r = e.ops[0], e.left, e.comparators[0]
+            if norm(l) == f"type({itemv})" and isinstance(op, (ast.Is, ast.IsNot,
+                                                              ast.Eq, ast.NotEq)):
+                if norm(r) == "int":
+                    v = val["kind"] == "int"
+                    return v if isinstance(op, (ast.Is, ast.Eq)) else not v
+            a, b = operand(l, env), operand(r, env)
+            if a is None or b is None:
+                raise AnalysisError(
+                    f"AbstractArray.validate: uninterpretable test "
+                    f"`{norm(e)}` in the dimension check")
+            if isinstance(op, (ast.Is, ast.IsNot)):
+                if b != "NONE":
+                    a, b = b, a
+                if b != "NONE":
+                    raise AnalysisError(f"identity test `{norm(e)}`")
+                if a == "ITEM":
+                    v = val["kind"] == "none"
+                elif a == "HIGH":
+                    if val["kind"] != "pair":
+                        raise Raises()
+                    v = val["hi_none"]
+                elif a == "LOW":
+                    if val["kind"] != "pair":
+                        raise Raises()
+                    v = False
+                else:
+                    raise AnalysisError(f"identity test `{norm(e)}`")
+                return v if isinstance(op, ast.Is) else not v
+            cop = dt.PY_CMP.get(type(op))
+            if cop is None:
+                raise AnalysisError(f"comparison `{norm(e)}`")
+            flip = False
+            if a != "DIM":
+                a, b, flip = b, a, True
+            if a != "DIM":
+                raise AnalysisError(f"comparison `{norm(e)}`")
+            if b == "ITEM":
+                if val["kind"] == "none":
+                    raise Raises()          # int <-> None ordering
+                if val["kind"] == "pair":
+                    if cop in ("==", "!="):
+                        rel = dt.LT         # an int never equals a tuple
+                        return cop == "!="
+                    raise Raises()
+                rel = val["rel_item"]
+            elif b in ("LOW", "HIGH"):
+                if val["kind"] != "pair":
+                    raise Raises()          # None[0] / int[0]
+                if b == "HIGH" and val["hi_none"]:
+                    if cop in ("==", "!="):
+                        return cop == "!="
+                    raise Raises()
+                rel = val["rel_low"] if b == "LOW" else val["rel_high"]
+            else:
+                raise AnalysisError(f"comparison `{norm(e)}`")
+            if flip:
+                rel = dt.FLIP[rel]
+            return dt.cmp_holds(cop, rel)
+        raise AnalysisError(f"AbstractArray.validate: uninterpretable test "
+                            f"`{norm(e)}` in the dimension check")
+
+    def run(val):
+        env = dict(env0)
+        nid = g.entry.id
+        for _ in range(500):
+            nd = g.nodes[nid]
+            a = nd.ast
+            if nd.kind == "cond":
+                try:
+                    t = ev(a, val, env)
+                except Raises:
+                    return "REJECT"       # swallowed by the bare except
+                lab = "T" if t else "F"
+            else:
+                if isinstance(a, ast.Return):
+                    return a.value.value if isinstance(a.value, ast.Constant) \
+                        else "ACCEPT"
+                if isinstance(a, ast.Assign) \
+                        and isinstance(a.targets[0], ast.Name) \
+                        and a.targets[0].id != itemv:
+                    env[a.targets[0].id] = a.value
+                lab = None
+            nxt = [t for l, t in g.succ[nid]
+                   if l != "exc" and (lab is None or l == lab)]
+            if not nxt:
+                return "ACCEPT"
+            nid = nxt[0]
+        raise AnalysisError("AbstractArray.validate: dimension walk diverges")
+
+    vals = [dict(kind="none")]
+    vals += [dict(kind="int", rel_item=r) for r in (dt.LT, dt.EQ, dt.GT)]
+    for rl in (dt.LT, dt.EQ, dt.GT):
+        vals.append(dict(kind="pair", hi_none=True, rel_low=rl))
+        for rh in (dt.LT, dt.EQ, dt.GT):
+            if rl == dt.LT and rh == dt.GT:
+                continue        # dim < low <= high < dim is impossible
+            vals.append(dict(kind="pair", hi_none=False, rel_low=rl,
+                             rel_high=rh))
+
+    def want(v):
+        if v["kind"] == "none":
+            return "ACCEPT"
+        if v["kind"] == "int":
+            return "ACCEPT" if v["rel_item"] == dt.EQ else "REJECT"
+        ok = v["rel_low"] in (dt.EQ, dt.GT) and (
+            v["hi_none"] or v["rel_high"] in (dt.LT, dt.EQ))
+        return "ACCEPT" if ok else "REJECT"
+
+    res.instance("AbstractArray.validate:dimension", mod.loc(loop),
+                 valuations=len(vals))
+    for v in vals:
+        got = run(v)
+        desc = ",".join(f"{k}={x}" for k, x in v.items())
+        res.oblige(got == want(v), f"AbstractArray.validate:shape[{desc}]",
+                   mod.loc(loop),
+                   f"for a shape entry with {desc} (rel = dimension compared "
+                   f"with the bound) the dimension is {got}ED; the declared "
+                   f"shape says {want(v)}")
+    res.floor(1)
